@@ -109,8 +109,12 @@ def check_run(case, res):
         e_t = gap_model(r, m, t) * S
         rb = c01.relaxation_bound(r)
         res.labels["relaxed"] = bool(rb < 1e-6)
-        if rb < 1e-6 and nx >= 3 and C_GAP / nx * S + e_t < S:  # otherwise the bound says nothing
-            res.check("C03/ideal-plateau", max(abs(rff[-1] - S) - e_t, 0.0), C_GAP / nx * S + 1e-9, f"ideal-gas recovery plateaus at {rff[-1]!r}, 1 - p_f/p_i = {S!r} (nx={nx}, E_t={e_t!r});")
+        # rounding of the one-sided flux stencil integrated over the run, as for the table-based classes: each stored
+        # level carries a rounding error of up to ~eps times the previous level (whatever exact solver / update form is
+        # used), the stencil multiplies it by ~nx and the time quadrature by the elapsed time
+        round_flux = 1024 * np.finfo(float).eps * nx * float(t[-1] - t[0]) * S
+        if rb < 1e-6 and nx >= 3 and C_GAP / nx * S + e_t + round_flux < S:  # otherwise the bound says nothing
+            res.check("C03/ideal-plateau", max(abs(rff[-1] - S) - e_t, 0.0), C_GAP / nx * S + 1e-9 + round_flux, f"ideal-gas recovery plateaus at {rff[-1]!r}, 1 - p_f/p_i = {S!r} (nx={nx}, E_t={e_t!r});")
         dec = float(np.max(-np.diff(rff))) if nt > 1 else 0.0
         res.check("C03/flux-recovery-non-decreasing", max(dec, 0.0), 1e-6 * S + 1e-12 + 1024 * np.finfo(float).eps * nx * float(np.max(np.diff(t))) if nt > 1 else 1e-12, f"ideal flux recovery decreases by {dec!r} (S={S!r});")
         res.nontrivial = bool(nx >= 5 and (rb < 1e-2 or nt >= 51) and (C_GAP / nx * S + e_t) < 0.5 * S)
